@@ -121,6 +121,9 @@ def encode(job):
         res["twins"][qn] = rr
         if rr == "sat":
             res["twins"][qn + "_model"] = decode(s.model())
+    xs = common.xs_run(s, qs, res["verdicts"], tuple(job[:3]), ("failfast_foreign_exception", "collecting_raises", "modes_disagree"))
+    if xs:
+        res["xsolver"] = xs
     res["t_solve"] = time.time() - t1
     res["stats"] = {k: (round(v, 3) if isinstance(v, float) else v) for k, v in view.stats.items()}
     res["functions"] = sorted(view.functions)
@@ -177,6 +180,7 @@ def run(tier, only=None):
     from metapype.eml import rule as R
     rep = Report(PROP, tier, "PyBMC merged symbolic execution of validate.node (content x attributes x children symbolic together, both modes back to back) + z3")
     sd = common.seed()
+    common.xs_enable(tier)
     Lmax = 2 if tier == "quick" else 4
     Lwide = 2 if tier == "quick" else 3
     elements = [only] if only else list(R.node_mappings.keys())
@@ -220,6 +224,7 @@ def run(tier, only=None):
             rep.inconclusive.append("%s: unsupported construct: %s" % (tag, r["unsupported"]))
             continue
         rep.functions.update(r["functions"])
+        common.xs_collect(rep, tag, r)
         if r.get("mode", "merged") != "merged":
             rep.extra.setdefault("pathwise_encodings", []).append({"case": tag, "paths": r["paths"]})
         rep.solver_time += r["t_solve"] + r["stats"].get("t_check", 0)
